@@ -17,6 +17,11 @@ def install(eng):
     tio.install(eng, encode_may_fail=False)     # reader side: A-CODEC (ruleset text is encodable in the ruleset's encoding)
 
 
+def install_trainer_side(eng):
+    td.install(eng)
+    tio.install(eng)        # str.encode may raise here (the trainer reads arbitrary input)
+
+
 def encoding_frame(repo):
     recs = effects.open_encoding_frame(repo, FILES, ASCII_ONLY, ASCII_FUNCS)
     for r in recs:
@@ -31,7 +36,9 @@ def replay(rec, repo, seed):
 PROP = Prop(
     'C07', 'A saved ruleset means the same thing to every tool that loads it',
     functions=[tio.TFI + ':check_valid', tio.SP + ':calculate_and_save_counter', tio.SP + ':save_indexed_counters',
-               gld.GIO + ':_load_from_file'],
+               gld.GIO + ':_load_from_file',
+               # 'no password accepted for training ...': what read_password yields has passed check_valid after $HEX[] decoding
+               (tio.TFIC + '.read_password#generator', install_trainer_side)],
     lemmas=lambda: gld.groups_desc.lemmas(),
     setup=install,
     effects=encoding_frame,
